@@ -363,6 +363,41 @@ VitaminCodes == [StdCodes EXCEPT
     !.node_bound = "i", !.leaf_bound = "I", !.face_plane = "i", !.face_num_edges = "i", !.face_texinfo = "i",
     !.face_dispinfo = "i", !.side_plane = "I", !.side_texinfo = "I"]
 InfraCodes == [StdCodes EXCEPT !.prim_count = "I"]
+(* Count, index and packed fields: the admissible range is what the READER can decode back, which is the  *)
+(* field width minus the bits it takes for flags, minus sentinels, or a fixed array bound - not the struct  *)
+(* code alone.  Values are plain integers (only ranges that can be built as real lists are tested).        *)
+CodeMax(c) == CASE c = "b" -> 127 [] c = "B" -> 255 [] c = "h" -> 32767 [] c = "H" -> 65535 [] c = "i" -> 2147483647
+                [] OTHER -> 2147483647      \* "I": beyond anything a list can be built for
+Pow2(n) == CASE n = 7 -> 128 [] n = 14 -> 16384 [] n = 15 -> 32768 [] n = 17 -> 131072
+\* the struct code of the field that carries the value, per layout
+CountCode(layout, field) ==
+    LET std == [cnt_face_prims |-> "H", cnt_face_edges |-> "h", cnt_prim_verts |-> "H", cnt_prim_inds |-> "H",
+                pack_leaf_area |-> "h", cnt_overlay_faces |-> "H", overlay_render_order |-> "H", cnt_node_faces |-> "H",
+                cnt_leaf_faces |-> "H", cnt_prop_leafs |-> "H", idx_face_texinfo |-> "h", idx_water_texinfo |-> "H",
+                idx_face_first_prim |-> "H"]
+        chaos == [std EXCEPT !.cnt_face_prims = "I", !.cnt_face_edges = "i", !.cnt_prim_verts = "I", !.cnt_prim_inds = "I",
+                             !.pack_leaf_area = "i", !.cnt_node_faces = "I", !.cnt_leaf_faces = "I", !.idx_face_texinfo = "i",
+                             !.idx_water_texinfo = "I", !.idx_face_first_prim = "I"]
+        infra == [std EXCEPT !.cnt_prim_inds = "I"]
+        vitamin == [std EXCEPT !.cnt_face_edges = "i", !.idx_face_texinfo = "i"]
+    IN (CASE layout = "chaos" -> chaos [] layout = "infra" -> infra [] layout = "vitamin" -> vitamin [] OTHER -> std)[field]
+LeafAreaShift(layout) == IF layout = "chaos" THEN 17 ELSE 7
+ReaderMax(layout, field) ==
+    LET w == CodeMax(CountCode(layout, field)) IN
+    CASE field \in {"cnt_face_prims", "cnt_face_prims_noshadow"} ->
+            \* the reader takes count = field & 0x7fff and dynamic_shadows = ~(field & 0x8000), whatever the width
+            Pow2(15) - 1
+      [] field = "pack_leaf_area" ->
+            \* area and the 7 / 17 flag bits share one signed field: area = field >> shift (vitamin: a field of its own)
+            IF layout = "vitamin" THEN w ELSE w \div Pow2(LeafAreaShift(layout))
+      [] field = "cnt_overlay_faces" -> 64          \* the face array of an overlay has 64 slots (and 14 bits of the field)
+      [] field = "overlay_render_order" -> 3        \* the two bits above the 14 count bits
+      [] OTHER -> w
+IsCountField(field) == field \in {"cnt_face_prims", "cnt_face_prims_noshadow", "cnt_face_edges", "cnt_prim_verts", "cnt_prim_inds",
+                                   "pack_leaf_area", "cnt_overlay_faces", "overlay_render_order", "cnt_node_faces", "cnt_leaf_faces",
+                                   "cnt_prop_leafs", "idx_face_texinfo", "idx_water_texinfo", "idx_face_first_prim"}
+CountFits(layout, field, n) ==
+    n >= 0 /\ n <= ReaderMax(layout, IF field = "cnt_face_prims_noshadow" THEN "cnt_face_prims" ELSE field)
 Codes(layout) == CASE layout = "chaos" -> ChaosCodes [] layout = "vitamin" -> VitaminCodes [] layout = "infra" -> InfraCodes
                    [] OTHER -> StdCodes
 =============================================================================
